@@ -7,7 +7,7 @@ From Coq Require Import List Arith ZArith Bool.
 Import ListNotations.
 From Acts.Gen Require Import GenState.
 From Acts.Model Require Import Engine.
-From Acts.Proofs Require Import EngineLemmas.
+From Acts.Proofs Require Import EngineLemmas LogInv C02Ops FinalProofs.
 
 Theorem C16_one_node_per_generated_act :
   forall e pn acts sq, length (nodes (build_acts e pn acts sq)) = length (nodes e) + length acts.
@@ -27,5 +27,27 @@ Example C16_example :
   length (filter (fun t => is (t_state t) SInterrupt) (tasks e)) = 3.
 Proof. vm_compute. reflexivity. Qed.
 
+(* a sequence generator chains its groups by `next` links (build_acts with sq = true); in every run a group created
+   through such a link is created when the group before it is terminal, so the groups open one after another *)
+Theorem C16_sequence_groups_one_after_another :
+  forall ns c0 ops l1 l2 t nid p at_,
+    trace (run ns c0 ops) = l1 ++ ENew t nid (Some p) at_ VNext :: l2 ->
+    is_completed (cur c_none l1 p) = true /\
+    (cur c_none l1 p <> SError -> st (run ns c0 ops) p = cur c_none l1 p).
+Proof. exact next_link_after_terminal. Qed.
+(* non-vacuity: a sequence over two elements; the second group is created through the next link of the first one, after
+   the client completed the first group's interrupt act *)
+Example C16_example_sequence :
+  let blk := ASpec UIrq 0 true None [] in
+  let ns := [ Build_node 0 KWorkflow 0 [(ONormal, 1)] None None false [] dspec [] [] [] [] [] [] false;
+              Build_node 1 KStep 1 [(ONormal, 2)] None None false [] dspec [] [] [] [] [] [] false;
+              Build_node 2 KAct 2 [] None None false [] (ASpec USequence 2 true None [blk]) [] [] [] [] [] [] false ] in
+  let e0 := run ns 1000 [ODrain] in
+  let e1 := run ns 1000 [ODrain; OAct 4 ANext []; ODrain] in
+  length (filter (fun t => is (t_state t) SInterrupt) (tasks e0)) = 1 /\
+  existsb (fun x => match x with ENew _ _ (Some 3) _ VNext => true | _ => false end) (trace e0) = false /\
+  existsb (fun x => match x with ENew _ _ (Some 3) _ VNext => true | _ => false end) (trace e1) = true.
+Proof. vm_compute. auto. Qed.
 Print Assumptions C16_one_node_per_generated_act.
 Print Assumptions C16_parallel_children_all_at_once.
+Print Assumptions C16_sequence_groups_one_after_another.
